@@ -22,6 +22,9 @@ Model/ZSets.vos Model/ZSets.vok Model/ZSets.required_vos: Model/ZSets.v Base/Byt
 Model/Streams.vo Model/Streams.glob Model/Streams.v.beautified Model/Streams.required_vo: Model/Streams.v Base/Bytes.vo Model/Resp.vo Model/Types.vo
 Model/Streams.vio: Model/Streams.v Base/Bytes.vio Model/Resp.vio Model/Types.vio
 Model/Streams.vos Model/Streams.vok Model/Streams.required_vos: Model/Streams.v Base/Bytes.vos Model/Resp.vos Model/Types.vos
+Model/Rdb.vo Model/Rdb.glob Model/Rdb.v.beautified Model/Rdb.required_vo: Model/Rdb.v Base/Bytes.vo Model/Resp.vo Model/Types.vo Model/Strings.vo
+Model/Rdb.vio: Model/Rdb.v Base/Bytes.vio Model/Resp.vio Model/Types.vio Model/Strings.vio
+Model/Rdb.vos Model/Rdb.vok Model/Rdb.required_vos: Model/Rdb.v Base/Bytes.vos Model/Resp.vos Model/Types.vos Model/Strings.vos
 Model/Server.vo Model/Server.glob Model/Server.v.beautified Model/Server.required_vo: Model/Server.v Base/Bytes.vo Model/Resp.vo Model/Types.vo Model/Glob.vo Model/Strings.vo Model/Lists.vo Model/ZSets.vo Model/Streams.vo
 Model/Server.vio: Model/Server.v Base/Bytes.vio Model/Resp.vio Model/Types.vio Model/Glob.vio Model/Strings.vio Model/Lists.vio Model/ZSets.vio Model/Streams.vio
 Model/Server.vos Model/Server.vok Model/Server.required_vos: Model/Server.v Base/Bytes.vos Model/Resp.vos Model/Types.vos Model/Glob.vos Model/Strings.vos Model/Lists.vos Model/ZSets.vos Model/Streams.vos
@@ -31,9 +34,12 @@ Model/RunBase.vos Model/RunBase.vok Model/RunBase.required_vos: Model/RunBase.v 
 Model/RunSrv.vo Model/RunSrv.glob Model/RunSrv.v.beautified Model/RunSrv.required_vo: Model/RunSrv.v Base/Bytes.vo Model/Resp.vo Model/Types.vo Model/Server.vo Model/RunBase.vo
 Model/RunSrv.vio: Model/RunSrv.v Base/Bytes.vio Model/Resp.vio Model/Types.vio Model/Server.vio Model/RunBase.vio
 Model/RunSrv.vos Model/RunSrv.vok Model/RunSrv.required_vos: Model/RunSrv.v Base/Bytes.vos Model/Resp.vos Model/Types.vos Model/Server.vos Model/RunBase.vos
-Model/Run.vo Model/Run.glob Model/Run.v.beautified Model/Run.required_vo: Model/Run.v Base/Bytes.vo Model/Resp.vo Model/RunBase.vo Model/RunSrv.vo
-Model/Run.vio: Model/Run.v Base/Bytes.vio Model/Resp.vio Model/RunBase.vio Model/RunSrv.vio
-Model/Run.vos Model/Run.vok Model/Run.required_vos: Model/Run.v Base/Bytes.vos Model/Resp.vos Model/RunBase.vos Model/RunSrv.vos
+Model/RunRdb.vo Model/RunRdb.glob Model/RunRdb.v.beautified Model/RunRdb.required_vo: Model/RunRdb.v Base/Bytes.vo Model/Resp.vo Model/Types.vo Model/Strings.vo Model/Rdb.vo
+Model/RunRdb.vio: Model/RunRdb.v Base/Bytes.vio Model/Resp.vio Model/Types.vio Model/Strings.vio Model/Rdb.vio
+Model/RunRdb.vos Model/RunRdb.vok Model/RunRdb.required_vos: Model/RunRdb.v Base/Bytes.vos Model/Resp.vos Model/Types.vos Model/Strings.vos Model/Rdb.vos
+Model/Run.vo Model/Run.glob Model/Run.v.beautified Model/Run.required_vo: Model/Run.v Base/Bytes.vo Model/Resp.vo Model/RunBase.vo Model/RunSrv.vo Model/RunRdb.vo
+Model/Run.vio: Model/Run.v Base/Bytes.vio Model/Resp.vio Model/RunBase.vio Model/RunSrv.vio Model/RunRdb.vio
+Model/Run.vos Model/Run.vok Model/Run.required_vos: Model/Run.v Base/Bytes.vos Model/Resp.vos Model/RunBase.vos Model/RunSrv.vos Model/RunRdb.vos
 Proofs/BytesFacts.vo Proofs/BytesFacts.glob Proofs/BytesFacts.v.beautified Proofs/BytesFacts.required_vo: Proofs/BytesFacts.v Base/Bytes.vo
 Proofs/BytesFacts.vio: Proofs/BytesFacts.v Base/Bytes.vio
 Proofs/BytesFacts.vos Proofs/BytesFacts.vok Proofs/BytesFacts.required_vos: Proofs/BytesFacts.v Base/Bytes.vos
